@@ -17,7 +17,27 @@ class Source:
         self.funcs = {}
         self.classes = {}
         self.consts = {}
-        for node in self.tree.body:
+        body = []
+        self.conditional_defs = []
+
+        def flatten(stmts, depth=0):
+            # definitions under module-level if/try are collected too (later definitions win, so for
+            # `if os.name == 'nt': ... else: ...` the POSIX branch is the one under contract)
+            for n in stmts:
+                if isinstance(n, ast.If) and depth < 3:
+                    flatten(n.body, depth + 1)
+                    flatten(n.orelse, depth + 1)
+                elif isinstance(n, ast.Try) and depth < 3:
+                    flatten(n.body, depth + 1)
+                    for h in n.handlers:
+                        flatten(h.body, depth + 1)
+                    flatten(n.orelse, depth + 1)
+                else:
+                    if depth and isinstance(n, (ast.FunctionDef, ast.ClassDef)):
+                        self.conditional_defs.append(n.name)
+                    body.append(n)
+        flatten(self.tree.body)
+        for node in body:
             if isinstance(node, (ast.FunctionDef, ast.AsyncFunctionDef)):
                 self.funcs[node.name] = node
             elif isinstance(node, ast.ClassDef):
